@@ -93,6 +93,17 @@ def gen_case(rng):
         dz = rng.choice([-1, 1])
         if cross and not 1 <= z1 + dz <= 60:
             dz = -dz
+        if rng.random() < 0.03 and a is not None:
+            # the same easting and northing in two neighbouring zones: two different points, one zone width of longitude apart
+            # (less than 100 km apart only north of 81.4 deg)
+            zz = z1 + (dz if 1 <= z1 + dz <= 60 else -dz)
+            try:
+                _, _, e1, n1, _, _ = C.geo2grid(rng.uniform(81.5, 83.9), cm_of(z1) + rng.uniform(-2.5, 2.5), z1, ell)
+            except ValueError:
+                continue
+            e1, n1 = round(e1, rng.choice([0, 1, 3])), round(n1, rng.choice([0, 1, 3]))
+            return {'zone1': z1, 'east1': e1, 'north1': n1, 'zone2': zz, 'east2': e1, 'north2': n1,
+                    'hemisphere': 'north', 'a': a, 'invf': invf, 'edge': ''}
         r = rng.random()
         # 'equator': line ending within metres of the equator; 'lat-limit': ending within metres of 84 N / 80 S
         edge = 'equator' if r < 0.06 else 'lat-limit' if r < 0.075 else ''
